@@ -4,6 +4,10 @@
 
 package clients
 
+// (C15) Nothing in this package creates, replaces, renames or removes a file:
+// the outfile is only ever touched through mapr.(*GroupSet).WriteResult.
+//@ fs-writers-only nothing
+
 // ---- request encoding (C12) -------------------------------------------------------------------
 // Every command ends in " " + the serialised regex: "<mode>:<options> <file> regex:<flag> <pattern>".
 //@ func (GrepClient).makeCommands
